@@ -248,6 +248,14 @@ fn c12_case(sub: &str, id: u64, explicit: Option<&Value>, r: &mut Report) {
         if rounds >= 64 { if let JOp::Fill(k) = o { return JOp::Fill(k % 9); } }
         o
     }).collect();
+    // sometimes one bulk request (>= 2048 bytes: 256+ collections) on a slow / coarse
+    // clock, where stuck decisions depend on the exact history of deltas
+    if rounds == 1 && p.chance(1, 40) {
+        let big = *p.pick(&[2048usize, 2049, 2056, 4096, 3000]);
+        let at = p.below(ops.len() as u64 + 1) as usize;
+        ops.insert(at, JOp::Fill(big));
+        r.cov("bulk_fill");
+    }
     // sometimes the documented start-up idiom comes first (1601 more readings)
     let mut readings = readings;
     if class != 10 && rounds < 64 && p.chance(1, 6) {
@@ -279,6 +287,7 @@ pub fn run_c12(ctx: &Ctx, only: Option<&Only>) -> Report {
         total.floor(&format!("op:{}", op), 100);
     }
     total.floor("rounds:1", 10);
+    total.floor("bulk_fill", 20);
     total.floor("rounds:255", 10);
     for c in SCRIPT_CLASSES {
         total.floor(&format!("script_class:{}", c), if c == "long_stall" { 4 } else { 10 });
@@ -642,8 +651,74 @@ fn c13_case(sub: &str, id: u64, explicit: Option<&Value>, r: &mut Report) {
     c13_check(readings, p.u64(), TT_CLASSES[class], sub, id, r);
 }
 
+// ---- timers of a zero-sized type (fn items / non-capturing closures) reading a
+// process-global script: what `JitterRng::new()` and the crate documentation use.
+static ZST_SCRIPT: std::sync::Mutex<(Vec<u64>, usize)> = std::sync::Mutex::new((Vec::new(), 0));
+fn zst_next() -> u64 {
+    let mut g = ZST_SCRIPT.lock().unwrap();
+    let i = g.1;
+    g.1 += 1;
+    if i < g.0.len() { g.0[i] } else { g.0.last().copied().unwrap_or(1).wrapping_add(1_000_003 * (i - g.0.len() + 1) as u64) }
+}
+fn zst_timer_a() -> u64 {
+    zst_next()
+}
+fn zst_timer_b() -> u64 {
+    zst_next()
+}
+fn zst_load(readings: Vec<u64>) {
+    *ZST_SCRIPT.lock().unwrap() = (readings, 0);
+}
+fn zst_calls() -> usize {
+    ZST_SCRIPT.lock().unwrap().1
+}
+
+/// C13 on zero-sized timer types, strictly sequential (one global script): a
+/// passing timer first, then failing ones, alternating between two fn items and a
+/// non-capturing closure — a verdict cached per type or per process would show
+fn c13_zst_sequence(ctx: &Ctx, r: &mut Report) {
+    let mut p = Prng::new(ctx.seed ^ 0x2571);
+    let n = ((120.0 * ctx.scale.min(1.0)).ceil() as usize).max(3);
+    for k in 0..n {
+        let class = if k % 2 == 0 { 8 } else { *p.pick(&[2usize, 3, 4, 0, 9, 6]) };
+        let mut q = Prng::new(p.u64());
+        let readings = c13_gen(&mut q, class);
+        zst_load(readings.clone());
+        let res = match k % 3 {
+            0 => JitterRng::new_with_timer(zst_timer_a).test_timer(),
+            1 => JitterRng::new_with_timer(zst_timer_b).test_timer(),
+            _ => JitterRng::new_with_timer(|| zst_next()).test_timer(),
+        };
+        let consumed = zst_calls();
+        let facts = tt_facts(&|i| if i < readings.len() { readings[i] } else { readings.last().copied().unwrap_or(1).wrapping_add(1_000_003 * (i - readings.len() + 1) as u64) }, PROBES);
+        r.eval();
+        match tt_judge(&res, &facts, false) {
+            Ok(kind) => r.cov(&format!("zst_result:{}", kind)),
+            Err(why) => {
+                r.violation("test_timer:zero_sized_timer_type:verdict_does_not_match_readings".into(), "zst", k as u64, json!({
+                    "sequence_index": k, "script_class": TT_CLASSES[class], "result": err_name(&res), "why": why,
+                    "readings_consumed": consumed, "facts": format!("{:?}", facts),
+                    "note": "timers of a zero-sized type (fn item / non-capturing closure) run one after the other in one process"}));
+                return;
+            }
+        }
+        let expect = if let Some(i) = facts.zero_reading_probe.or(facts.zero_delta_probe) { 5 + 4 * i } else { 1601 };
+        if consumed != expect {
+            r.violation("test_timer:zero_sized_timer_type:readings_consumed".into(), "zst", k as u64, json!({"expected": expect, "observed": consumed, "result": err_name(&res)}));
+            return;
+        }
+    }
+    r.cov("zst_sequence_done");
+    r.distinct(hkey(&[&"zst", &ctx.seed]));
+}
+
 pub fn run_c13(ctx: &Ctx, only: Option<&Only>) -> Report {
     if let Some(o) = only {
+        if o.sub == "zst" {
+            let mut r = Report::new();
+            c13_zst_sequence(ctx, &mut r);
+            return r;
+        }
         let mut r = Report::new();
         let sub = o.sub.to_string();
         let ex = o.explicit.cloned();
@@ -652,6 +727,9 @@ pub fn run_c13(ctx: &Ctx, only: Option<&Only>) -> Report {
     }
     let secs = if ctx.tier_thorough { ctx.budget_s } else { 0.0 };
     let mut total = drive(ctx, "timer", 12_000, secs, |id, r| c13_case("timer", id, None, r));
+    c13_zst_sequence(ctx, &mut total);
+    total.floor("zst_sequence_done", 1);
+    total.floor("zst_result:Ok", 5);
     for k in ["Ok", "Err(NoTimer)", "Err(CoarseTimer)", "Err(NotMonotonic)", "Err(TinyVariations)", "Err(TooManyStuck)"] {
         total.floor(&format!("result:{}", k), 5);
     }
@@ -1275,8 +1353,43 @@ fn c16_case(sub: &str, id: u64, r: &mut Report) {
     let _ = values;
 }
 
+/// `JitterRng` must not be duplicable behind Clone's back: if the type is `Copy`
+/// for a `Copy` timer (fn items, fn pointers — what the documentation uses), a
+/// plain copy keeps the pending half. Probed at run time; if the probe says Copy
+/// the duplicate is made bit-wise (what a copy is) and judged by C16's rule.
+fn c16_copy_probe(r: &mut Report) {
+    use super::c19::{Probe, ProbeCopyFallback};
+    let is_copy = Probe::<JitterRng<fn() -> u64>>::IS_COPY;
+    r.eval();
+    r.cov(&format!("jitter_is_copy:{}", is_copy));
+    if !is_copy {
+        return;
+    }
+    let readings = gen_script(&mut Prng::new(7), 0, 400);
+    zst_load(readings);
+    let f: fn() -> u64 = zst_timer_a;
+    let mut g = JitterRng::new_with_timer(f);
+    g.set_rounds(2);
+    let _low = g.next_u32();
+    let mut dup: JitterRng<fn() -> u64> = unsafe { std::ptr::read(&g) }; // = `let dup = g;` for a Copy type
+    let before = zst_calls();
+    let first = dup.next_u32();
+    let reads = zst_calls() - before;
+    let orig_high = g.next_u32();
+    if reads == 0 || first == orig_high {
+        r.violation("JitterRng:is_Copy:copy_returns_the_half_its_original_still_holds".into(), "copy_probe", 0, json!({
+            "timer_reads_in_first_output_of_the_copy": reads, "copy_first_output": hx32(first), "original_next_output": hx32(orig_high),
+            "note": "JitterRng<fn() -> u64> implements Copy: an implicit copy bypasses Clone::clone and duplicates the pending half"}));
+    }
+}
+
 pub fn run_c16(ctx: &Ctx, only: Option<&Only>) -> Report {
     if let Some(o) = only {
+        if o.sub == "copy_probe" {
+            let mut r = Report::new();
+            c16_copy_probe(&mut r);
+            return r;
+        }
         let mut r = Report::new();
         let sub = o.sub.to_string();
         run_case(o.sub, o.id, &mut r, &|id, r: &mut Report| c16_case(&sub, id, r));
@@ -1284,6 +1397,7 @@ pub fn run_c16(ctx: &Ctx, only: Option<&Only>) -> Report {
     }
     let secs = if ctx.tier_thorough { ctx.budget_s } else { 0.0 };
     let mut total = drive(ctx, "ledger", 24_000, secs, |id, r| c16_case("ledger", id, r));
+    c16_copy_probe(&mut total);
     for k in ["op:test_timer", "test_timer_passed", "timer_fault_recovered", "op:u32", "op:u64", "op:fill", "op:clone", "op:clone_from", "clone_from_into_instance_with_pending_half", "clone_from_source_with_pending_half",
               "pending_half_served", "clone_while_half_pending", "fresh_collection_on_clone"] {
         total.floor(k, 100);
